@@ -7,7 +7,7 @@ Shared state: the lock, the vector `ElementsToBeDestroyed` (`vec`, a list of obj
 reference ledger of every payload object: `ext k` external `shared_ptr` copies (held by client code, including the
 by-value parameter of a running `addObjectsToBeDestroyed`), the occurrences of `k` in `vec`, and the occurrences of
 `k` in the local `ecall` vectors of running `destroyObjects` calls (`ecs`, one global list of `(thread, object)`
-pairs; a thread's own entries, in list order, are its `ecall` vectors, innermost call first).
+pairs used as a multiset; every `destroyObjects` frame also carries its own `ecall` vector).
 `std::shared_ptr` is trusted: an object's destructor starts exactly when the last of these references goes away.
 
 Every thread has a *stack* of frames (`stk`): user code inside a callback or inside a payload destructor may call
@@ -27,15 +27,17 @@ inductive Frame
   | sizeCalled
   | sizeLocked
   | sizeRet (n : Nat)
-  -- destroyObjects()          (int: called internally by destroyObjects(delay) / the destructor: no call/ret markers)
-  | dCalled (int : Bool)                  -- before the first `try_lock_for`
-  | dUnlock0 (int : Bool)                 -- lock held, nothing selected; before the release; returns `vec.size()`
-  | dUnlock1 (int : Bool) (sz : Nat) (sel : List ObjId)  -- lock held, `sel` moved to `ecall`; before `lock.unlock()`
-  | dCb (int : Bool) (sz : Nat) (n : Nat) (todo : List ObjId)  -- outside the lock; callbacks still to run (n = ecall.size())
-  | dInCb (int : Bool) (sz : Nat) (n : Nat) (k : ObjId) (todo : List ObjId)  -- inside the callback for `k` (user code)
-  | dClear (int : Bool) (sz : Nat) (n : Nat) (thrown : Bool)  -- `ecall` is being destroyed, `n` entries left
-  | dRelock (int : Bool) (sz : Nat)       -- before the second `try_lock_for`
-  | dUnlock2 (int : Bool)                 -- lock held again; before the release; returns `vec.size()`
+  -- destroyObjects()   (called by user code, or internally by destroyObjects(delay) / the destructor: then the frame
+  -- below is `gInner` / `xInner` / `xInnerLast` and there are no call/ret markers).
+  -- sz = elementSize after the erase, ec = the local vector `ecall`, cbs = callbacks this call has completed
+  | dCalled                               -- before the first `try_lock_for`
+  | dUnlock0                              -- lock held, nothing selected; before the release; returns `vec.size()`
+  | dUnlock1 (sz : Nat) (ec : List ObjId) -- lock held, selection moved to `ecall`; before `lock.unlock()`
+  | dCb (sz : Nat) (ec cbs todo : List ObjId)              -- outside the lock; callbacks still to run for `todo`
+  | dInCb (sz : Nat) (ec cbs : List ObjId) (k : ObjId) (todo : List ObjId)  -- inside the callback for `k` (user code)
+  | dClear (sz : Nat) (ec cbs : List ObjId) (thrown : Bool)  -- `ecall` is being destroyed, `ec` = entries left
+  | dRelock (sz : Nat)                    -- before the second `try_lock_for`
+  | dUnlock2                              -- lock held again; before the release; returns `vec.size()`
   | dRet (r : Option Nat)                 -- before `ret destroy r`   (`none` = `size_t(-1)`)
   -- payload destructor
   | dying (k : ObjId)                     -- last reference gone; before `pdt k`
@@ -54,7 +56,7 @@ inductive Frame
   | xInner (ii : Nat)                     -- destroyObjects() of iteration `ii` running (frame above)
   | xYield (ii : Nat)
   | xSleep (ii : Nat)
-  | xInnerLast                            -- the extra destroyObjects() after `ii > 4`
+  | xInnerLast                            -- the extra destroyObjects() after `ii > 4` running (frame above)
   | xVec                                  -- body left: the vector member releases what is still in it
   | xRet
   deriving DecidableEq, Repr
@@ -79,21 +81,23 @@ structure St where
   ecs : List (Tid × ObjId)
   ext : ObjId → Nat
   stk : Tid → List Frame
-  nfr : Nat                    -- total number of frames of all threads (0 = nobody is inside a call)
-  dead : Bool                  -- the container's destructor has started
+  act : List Tid               -- threads whose stack is not empty
+  dead : Option Tid            -- the thread that runs / ran the container's destructor
   vdead : Bool                 -- the vector member is being / has been destroyed
   created : List ObjId         -- ghost: objects ever created
+  pend : List ObjId            -- ghost: objects whose last reference is gone and whose destructor has not started
   destroyed : List ObjId       -- ghost: log of destructor starts (`pdt`)
-  reaped : List ObjId          -- ghost: log of selections by destroyObjects
-  cbRuns : List ObjId          -- ghost: log of callbacks that returned normally
-  cbThrown : List ObjId        -- ghost: log of callbacks that threw
+  added : List ObjId           -- ghost: log of `push_back`s
+  reaped : List ObjId          -- ghost: log of removals from the vector by destroyObjects
+  vrel : List ObjId            -- ghost: log of elements released by the vector member's destructor
 
-/-- `nshared` objects exist at the start, each script thread (`nthreads ≥ 1` of them) holds one reference to each -/
+/-- `nshared` objects exist at the start, each script thread (`nthreads` of them) holds one reference to each -/
 def init (hasCb : Bool) (nshared nthreads : Nat) : St :=
   { hasCb := hasCb, lock := none, vec := [], ecs := [],
     ext := fun k => if k < nshared then nthreads else 0,
-    stk := fun _ => [], nfr := 0, dead := false, vdead := false,
-    created := if nthreads = 0 then [] else List.range nshared, destroyed := [], reaped := [], cbRuns := [], cbThrown := [] }
+    stk := fun _ => [], act := [], dead := none, vdead := false,
+    created := if nthreads = 0 then [] else List.range nshared, pend := [], destroyed := [], added := [], reaped := [],
+    vrel := [] }
 
 /-- `use_count()` of object `k`: external copies + occurrences in the vector + occurrences in `ecall` vectors -/
 def refs (s : St) (k : ObjId) : Nat := s.ext k + s.vec.count k + (s.ecs.map Prod.snd).count k
@@ -102,16 +106,8 @@ def refs (s : St) (k : ObjId) : Nat := s.ext k + s.vec.count k + (s.ecs.map Prod
 def selectable (s : St) (k : ObjId) : Bool := refs s k == 1
 
 def St.setStk (s : St) (t : Tid) (fs : List Frame) : St :=
-  { s with stk := upd s.stk t fs, nfr := s.nfr + fs.length - (s.stk t).length }
-
-/-- remove thread `t`'s first `ecall` entry -/
-def popT (t : Tid) : List (Tid × ObjId) → Option (ObjId × List (Tid × ObjId))
-  | [] => none
-  | (u, k) :: r =>
-      if u = t then some (k, r) else
-      match popT t r with
-      | none => none
-      | some (k', r') => some (k', (u, k) :: r')
+  { s with stk := upd s.stk t fs,
+           act := if fs = [] then s.act.filter (· ≠ t) else t :: s.act.filter (· ≠ t) }
 
 /-- user code runs (script level, inside a callback, inside a payload destructor): markers and calls are allowed -/
 def userLevel : List Frame → Bool
@@ -120,75 +116,72 @@ def userLevel : List Frame → Bool
   | .inDt _ :: _ => true
   | _ => false
 
-/-- a new API call may start here -/
-def St.mayCall (s : St) (t : Tid) : Bool := userLevel (s.stk t) && !s.vdead && (!s.dead || (s.stk t) ≠ [])
+def inCbOf (k : ObjId) : List Frame → Bool
+  | .dInCb _ _ _ k' _ :: _ => k' = k
+  | _ => false
+
+/-- a new API call may start here (client obligation: none once the container's destructor has started) -/
+def St.mayCall (s : St) (t : Tid) : Bool := userLevel (s.stk t) && !s.vdead && s.dead.isNone
 
 /-- the vector member's destructor: release the remaining elements front to back; stops at the first object whose
 last reference this is (its destructor runs next) -/
 def vdrain (s : St) (t : Tid) (rest : List Frame) : List ObjId → St
   | [] => { s with vec := [] }.setStk t (.xRet :: rest)
   | k :: v =>
-      let s1 := { s with vec := v }
-      if refs s1 k = 0 then s1.setStk t (.dying k :: .xVec :: rest) else vdrain s1 t rest v
+      let s1 := { s with vec := v, vrel := k :: s.vrel }
+      if refs s1 k = 0 then { s1 with pend := k :: s1.pend }.setStk t (.dying k :: .xVec :: rest)
+      else vdrain s1 t rest v
 
 /-- loop test at the top of the destructor's `while (!ElementsToBeDestroyed.empty())` with counter `ii` -/
 def xTop (s : St) (t : Tid) (ii : Nat) (rest : List Frame) : St :=
   if s.vec = [] then { s with vdead := true }.setStk t (.xRet :: rest)
-  else s.setStk t (.dCalled true :: .xInner (ii + 1) :: rest)
+  else s.setStk t (.dCalled :: .xInner (ii + 1) :: rest)
 
 /-- the destroyObjects() of iteration `ii` has returned -/
 def xAfter (s : St) (t : Tid) (ii : Nat) (rest : List Frame) : St :=
   if s.vec = [] then { s with vdead := true }.setStk t (.xRet :: rest)
-  else if ii > 4 then s.setStk t (.dCalled true :: .xInnerLast :: rest)
+  else if ii > 4 then s.setStk t (.dCalled :: .xInnerLast :: rest)
   else if ii % 2 = 0 then s.setStk t (.xSleep ii :: rest)
   else s.setStk t (.xYield ii :: rest)
 
-/-- destroyObjects() finishes with result `r`; `rest` = the frames below it -/
-def dDone (s : St) (t : Tid) (int : Bool) (r : Option Nat) (rest : List Frame) : Option St :=
-  if int then
-    match rest with
-    | .gInner dc cnt es :: rest' => some (s.setStk t (.gRelockD dc cnt es :: rest'))
-    | .xInner ii :: rest' => some (xAfter s t ii rest')
-    | .xInnerLast :: rest' => some (vdrain { s with vdead := true } t rest' s.vec)
-    | _ => none
-  else some (s.setStk t (.dRet r :: rest))
+/-- destroyObjects() finishes with result `r`; `rest` = the frames below it: an internal caller goes on, a call from
+user code waits for its `ret` marker -/
+def dDone (s : St) (t : Tid) (r : Option Nat) (rest : List Frame) : St :=
+  match rest with
+  | .gInner dc cnt es :: rest' => s.setStk t (.gRelockD dc cnt es :: rest')
+  | .xInner ii :: rest' => xAfter s t ii rest'
+  | .xInnerLast :: rest' => vdrain { s with vdead := true } t rest' s.vec
+  | _ => s.setStk t (.dRet r :: rest)
 
-/-- `ecall.clear()` / unwinding of `ecall`: release this call's `n` remaining entries front to back; stops at the first
+/-- `ecall.clear()` / unwinding of `ecall`: release this call's remaining entries front to back; stops at the first
 object whose last reference this is.  When nothing is left the call goes on to the second `try_lock_for`, or, after
 a throw, returns `sz` through the `catch (...)` -/
-def drain (s : St) (t : Tid) (int : Bool) (sz : Nat) (thrown : Bool) (rest : List Frame) : Nat → Option St
-  | 0 => if thrown then dDone s t int (some sz) rest else some (s.setStk t (.dRelock int sz :: rest))
-  | n + 1 =>
-      match popT t s.ecs with
-      | none => none
-      | some (k, ecs') =>
-          let s1 := { s with ecs := ecs' }
-          if refs s1 k = 0 then some (s1.setStk t (.dying k :: .dClear int sz n thrown :: rest))
-          else drain s1 t int sz thrown rest n
+def drain (s : St) (t : Tid) (sz : Nat) (cbs : List ObjId) (thrown : Bool) (rest : List Frame) : List ObjId → St
+  | [] => if thrown then dDone s t (some sz) rest else s.setStk t (.dRelock sz :: rest)
+  | k :: ec =>
+      let s1 := { s with ecs := s.ecs.erase (t, k) }
+      if refs s1 k = 0 then { s1 with pend := k :: s1.pend }.setStk t (.dying k :: .dClear sz ec cbs thrown :: rest)
+      else drain s1 t sz cbs thrown rest ec
 
 /-- a frame has been popped (a payload destructor returned): release loops below it go on -/
-def resume (s : St) (t : Tid) : List Frame → Option St
-  | .dClear int sz n thrown :: rest => drain s t int sz thrown rest n
-  | .xVec :: rest => some (vdrain s t rest s.vec)
-  | fs => some (s.setStk t fs)
+def resume (s : St) (t : Tid) : List Frame → St
+  | .dClear sz ec cbs thrown :: rest => drain s t sz cbs thrown rest ec
+  | .xVec :: rest => vdrain s t rest s.vec
+  | fs => s.setStk t fs
 
 /-- loop of destroyObjects(delay), evaluated under the lock: `len = vec.size()` -/
 def gBody (len dc cnt : Nat) : Frame := if len > 0 then .gUnlockD dc (cnt + 1) len else .gUnlockE
 def gNext (len dc cnt es : Nat) : Frame :=
   if es > 0 ∧ cnt < dc then (if cnt > 0 then .gUnlockS dc cnt es else gBody len dc cnt) else .gUnlockE
 
-def inCbOf (k : ObjId) : List Frame → Bool
-  | .dInCb _ _ _ k' _ :: _ => k' = k
-  | _ => false
-
 /-- the scan + `remove_if` + `erase` of destroyObjects(), executed under the lock by thread `t` -/
-def select (s : St) (t : Tid) (int : Bool) (skip : List ObjId) (rest : List Frame) : St :=
+def select (s : St) (t : Tid) (skip : List ObjId) (rest : List Frame) : St :=
   let sel := s.vec.filter (fun k => selectable s k && !skip.contains k)
-  if sel = [] then { s with lock := some t }.setStk t (.dUnlock0 int :: rest)
+  if sel = [] then { s with lock := some t }.setStk t (.dUnlock0 :: rest)
   else
     let vec' := s.vec.filter (fun k => !sel.contains k)
     { s with lock := some t, vec := vec', ecs := sel.map (fun k => (t, k)) ++ s.ecs, reaped := sel ++ s.reaped }.setStk t
-      (.dUnlock1 int vec'.length sel :: rest)
+      (.dUnlock1 vec'.length sel :: rest)
 
 /-- user-level markers and calls (the thread's stack is `fs`, with user code on top) -/
 def stepUser (s : St) (t : Tid) (fs : List Frame) : Ev → Option St
@@ -199,7 +192,7 @@ def stepUser (s : St) (t : Tid) (fs : List Frame) : Ev → Option St
   | .drop k =>
       if s.ext k > 0 then
         let s1 := { s with ext := fun j => if j = k then s.ext k - 1 else s.ext j }
-        some (if refs s1 k = 0 then s1.setStk t (.dying k :: fs) else s1)
+        some (if refs s1 k = 0 then { s1 with pend := k :: s1.pend }.setStk t (.dying k :: fs) else s1)
       else none
   | .callAdd k mv =>
       if !s.mayCall t then none
@@ -208,11 +201,11 @@ def stepUser (s : St) (t : Tid) (fs : List Frame) : Ev → Option St
         some ({ s with ext := fun j => if j = k then s.ext k + 1 else s.ext j }.setStk t (.addCalled k false :: fs))
       else none
   | .callSize => if s.mayCall t then some (s.setStk t (.sizeCalled :: fs)) else none
-  | .callDestroy => if s.mayCall t then some (s.setStk t (.dCalled false :: fs)) else none
+  | .callDestroy => if s.mayCall t then some (s.setStk t (.dCalled :: fs)) else none
   | .callDestroyD ms =>
       if s.mayCall t then some (s.setStk t (.gCalled (if ms < 100 then 1 else ms / 50) :: fs)) else none
   | .callDtor =>
-      if fs = [] ∧ s.nfr = 0 ∧ s.dead = false then some (xTop { s with dead := true } t 0 []) else none
+      if fs = [] ∧ s.act = [] ∧ s.dead = none then some (xTop { s with dead := some t } t 0 []) else none
   | _ => none
 
 def unlock (s : St) : St := { s with lock := none }
@@ -224,7 +217,7 @@ def step (s : St) (t : Tid) (e : Ev) : Option St :=
   -- addObjectsToBeDestroyed
   | .addCalled k mv :: rest, .mlk =>
       if s.lock = none ∧ s.ext k > 0 then
-        some ({ s with lock := some t, vec := s.vec ++ [k],
+        some ({ s with lock := some t, vec := s.vec ++ [k], added := k :: s.added,
                        ext := fun j => if j = k then s.ext k - 1 else s.ext j }.setStk t (.addLocked mv :: rest))
       else none
   | .addLocked mv :: rest, .mul =>
@@ -237,36 +230,38 @@ def step (s : St) (t : Tid) (e : Ev) : Option St :=
       if s.lock = some t then some ((unlock s).setStk t (.sizeRet s.vec.length :: rest)) else none
   | .sizeRet n :: rest, .retSize n' => if n = n' then some (s.setStk t rest) else none
   -- destroyObjects()
-  | .dCalled int :: rest, .mtf ok skip =>
-      if ok then (if s.lock = none then some (select s t int skip rest) else none)
-      else dDone s t int none rest
-  | .dUnlock0 int :: rest, .mul =>
-      if s.lock = some t then dDone (unlock s) t int (some s.vec.length) rest else none
-  | .dUnlock1 int sz sel :: rest, .mul =>
+  | .dCalled :: rest, .mtf ok skip =>
+      if ok then (if s.lock = none then some (select s t skip rest) else none)
+      else some (dDone s t none rest)
+  | .dUnlock0 :: rest, .mul =>
+      if s.lock = some t then some (dDone (unlock s) t (some s.vec.length) rest) else none
+  | .dUnlock1 sz ec :: rest, .mul =>
       if s.lock = some t then
-        (if s.hasCb then some ((unlock s).setStk t (.dCb int sz sel.length sel :: rest))
-         else drain (unlock s) t int sz false rest sel.length)
+        (if s.hasCb then some ((unlock s).setStk t (.dCb sz ec [] ec :: rest))
+         else some (drain (unlock s) t sz [] false rest ec))
       else none
-  | .dCb int sz n (k :: todo) :: rest, .ucb k' =>
-      if k = k' then some (s.setStk t (.dInCb int sz n k todo :: rest)) else none
-  | .dInCb int sz n k todo :: rest, .uce k' =>
+  | .dCb sz ec cbs (k :: todo) :: rest, .ucb k' =>
+      if k = k' then some (s.setStk t (.dInCb sz ec cbs k todo :: rest)) else none
+  | .dInCb sz ec cbs k todo :: rest, .uce k' =>
       if k = k' then
-        let s1 := { s with cbRuns := k :: s.cbRuns }
-        (if todo = [] then drain s1 t int sz false rest n else some (s1.setStk t (.dCb int sz n todo :: rest)))
+        (if todo = [] then some (drain s t sz (cbs ++ [k]) false rest ec)
+         else some (s.setStk t (.dCb sz ec (cbs ++ [k]) todo :: rest)))
       else none
-  | .dInCb int sz n k _ :: rest, .uth k' =>
-      if k = k' then drain { s with cbThrown := k :: s.cbThrown } t int sz true rest n else none
-  | .dInCb int sz n k todo :: rest, e => stepUser s t (.dInCb int sz n k todo :: rest) e
-  | .dRelock int sz :: rest, .mtf ok _ =>
-      if ok then (if s.lock = none then some ({ s with lock := some t }.setStk t (.dUnlock2 int :: rest)) else none)
-      else dDone s t int (some sz) rest
-  | .dUnlock2 int :: rest, .mul =>
-      if s.lock = some t then dDone (unlock s) t int (some s.vec.length) rest else none
+  | .dInCb sz ec cbs k _ :: rest, .uth k' =>
+      if k = k' then some (drain s t sz cbs true rest ec) else none
+  | .dInCb sz ec cbs k todo :: rest, e => stepUser s t (.dInCb sz ec cbs k todo :: rest) e
+  | .dRelock sz :: rest, .mtf ok _ =>
+      if ok then (if s.lock = none then some ({ s with lock := some t }.setStk t (.dUnlock2 :: rest)) else none)
+      else some (dDone s t (some sz) rest)
+  | .dUnlock2 :: rest, .mul =>
+      if s.lock = some t then some (dDone (unlock s) t (some s.vec.length) rest) else none
   | .dRet r :: rest, .retDestroy r' => if r = r' then some (s.setStk t rest) else none
   -- payload destructor
   | .dying k :: rest, .pdt k' =>
-      if k = k' then some ({ s with destroyed := k :: s.destroyed }.setStk t (.inDt k :: rest)) else none
-  | .inDt k :: rest, .pde k' => if k = k' then resume s t rest else none
+      if k = k' ∧ k ∈ s.pend then
+        some ({ s with pend := s.pend.erase k, destroyed := k :: s.destroyed }.setStk t (.inDt k :: rest))
+      else none
+  | .inDt k :: rest, .pde k' => if k = k' then some (resume s t rest) else none
   | .inDt k :: rest, e => stepUser s t (.inDt k :: rest) e
   -- destroyObjects(delay)
   | .gCalled dc :: rest, .mtf ok _ =>
@@ -282,7 +277,7 @@ def step (s : St) (t : Tid) (e : Ev) : Option St :=
         (if s.lock = none then some ({ s with lock := some t }.setStk t (gBody s.vec.length dc cnt :: rest)) else none)
       else some (s.setStk t (.gRet (some es) :: rest))
   | .gUnlockD dc cnt es :: rest, .mul =>
-      if s.lock = some t then some ((unlock s).setStk t (.dCalled true :: .gInner dc cnt es :: rest)) else none
+      if s.lock = some t then some ((unlock s).setStk t (.dCalled :: .gInner dc cnt es :: rest)) else none
   | .gRelockD dc cnt es :: rest, .mtf ok _ =>
       if ok then
         (if s.lock = none then
